@@ -612,6 +612,23 @@ ItNext(it, cnt, rev, res) ==
        /\ its' = [its EXCEPT ![it].rem = @ \ TakenKeys(res.ok)]
   /\ UNCHANGED <<hist, dur, inflight, wtx, readers, rpend, eph, nextOrd, latch>>
 
+\* The values of one multimap key (MultimapValue / OwnedMultimapValue), kept like an iterator: `rem` = the values not yet
+\* taken; taking cnt from the front (or the back) yields the smallest (greatest) remaining ones in order
+MHold(it, src, n, k, res) ==
+  /\ it \notin DOMAIN its /\ src # "w" /\ ReadOk(src, n, "m") /\ res = Ok(0)
+  /\ its' = Put(its, it, [idx |-> readers[src], t |-> n, rem |-> MVals(Content(src, n), k)])
+  /\ UNCHANGED <<hist, dur, inflight, wtx, readers, rpend, eph, nextOrd, latch>>
+
+MItNext(it, cnt, rev, res) ==
+  /\ IsOk(res) /\ it \in DOMAIN its
+  /\ LET rem == its[it].rem
+         taken == Range(res.ok) IN
+       /\ Len(res.ok) = Min2(cnt, Cardinality(rem)) /\ Cardinality(taken) = Len(res.ok) /\ taken \subseteq rem
+       /\ \A i \in 1..(Len(res.ok) - 1) : IF rev THEN res.ok[i] > res.ok[i+1] ELSE res.ok[i] < res.ok[i+1]
+       /\ \A v \in taken, w \in rem \ taken : IF rev THEN v > w ELSE v < w
+       /\ its' = [its EXCEPT ![it].rem = rem \ taken]
+  /\ UNCHANGED <<hist, dur, inflight, wtx, readers, rpend, eph, nextOrd, latch>>
+
 \* An untyped table handle (open_untyped_table / open_untyped_multimap_table of a read transaction): like an owned
 \* iterator it may outlive the read transaction; it answers len() and stats().  What it answers never changes (first =
 \* what it answered when it was opened), and its length is the number of entries of the table in its snapshot.
